@@ -90,3 +90,72 @@ package shell
 //@ modifies *
 //@ after call NewSession let sessErr = $ret1
 //@ at call ReleaseSession assert sessErr == nil
+
+// ---- C07: process output travels as whole sealed messages that fit one frame ----
+//
+// pumpOutput / pumpPTYOutput read at most maxOutputChunk = 16355 bytes, wrap
+// them in one shell message (type byte + the bytes read, in order) and hand it
+// to writeEncrypted, which seals exactly that message and passes the
+// ciphertext (at most 16384 bytes) to the stream writer in one call, for this
+// stream and peer. Agent.WriteStreamData emits such data as exactly one frame.
+
+//@ func DataWriter.WriteStreamData
+//@ trusted interface method: implemented by (*Agent).WriteStreamData, which is under contract in package agent; changes no handler state
+
+//@ func EncodeMessage
+//@ prop C07
+//@ check bounds
+//@ ensures len(result) == 1 + len(payload) && result[0] == msgType
+//@ ensures forall i in 0..len(payload): result[1 + i] == payload[i]
+
+//@ func EncodeStdout
+//@ prop C07
+//@ ensures len(result) == 1 + len(data) && result[0] == MsgStdout
+//@ ensures forall i in 0..len(data): result[1 + i] == data[i]
+
+//@ func EncodeStderr
+//@ prop C07
+//@ ensures len(result) == 1 + len(data) && result[0] == MsgStderr
+//@ ensures forall i in 0..len(data): result[1 + i] == data[i]
+
+//@ func (*Handler).writeEncrypted
+//@ prop C07
+//@ modifies *
+//@ at call Encrypt assert $1 == data
+//@ after call Encrypt let ct = $ret0
+//@ at call DataWriter.WriteStreamData assert $3 == ct && (len(data) <= 16356 ==> len($3) <= 16384) && $1 == ss.PeerID && $2 == ss.StreamID && $4 == flags
+
+//@ func (*Handler).pumpOutput
+//@ prop C07
+//@ modifies *
+//@ at call io.Reader.Read assert len($1) <= 16355 && base($1) == base(buf) && offset($1) == offset(buf)
+//@ after call io.Reader.Read assume 0 <= $ret0 && $ret0 <= len($1)
+//@ after call io.Reader.Read let nRead = $ret0
+//@ at call dynamic.encode assert base($0) == base(buf) && offset($0) == offset(buf) && len($0) == nRead
+//@ after call dynamic.encode assume len($ret) == len($0) + 1
+//@ note the assume above: the only encoders passed are EncodeStdout and EncodeStderr (guards in pumpStdout/pumpStderr), both proved to add exactly the type byte
+//@ after call dynamic.encode let msg = $ret
+//@ at call writeEncrypted assert $2 == msg && len($2) <= 16356 && $3 == 0
+
+//@ func (*Handler).pumpStdout
+//@ prop C07
+//@ modifies *
+//@ at call pumpOutput assert isfunc($3, "EncodeStdout")
+
+//@ func (*Handler).pumpStderr
+//@ prop C07
+//@ modifies *
+//@ at call pumpOutput assert isfunc($3, "EncodeStderr")
+
+//@ func (*Handler).pumpPTYOutput
+//@ prop C07
+//@ modifies *
+//@ at call PTYSessionInterface.Read assert len($1) <= 16355 && base($1) == base(buf) && offset($1) == offset(buf)
+//@ after call PTYSessionInterface.Read assume 0 <= $ret0 && $ret0 <= len($1)
+//@ after call PTYSessionInterface.Read let nRead = $ret0
+//@ at call EncodeStdout assert base($0) == base(buf) && offset($0) == offset(buf) && len($0) == nRead
+//@ after call EncodeStdout let msg = $ret
+//@ at call writeEncrypted assert $2 == msg && len($2) <= 16356 && $3 == 0
+
+//@ census[C07] (*Handler).pumpOutput in (*Handler).pumpStdout, (*Handler).pumpStderr
+//@ census[C07] DataWriter.WriteStreamData in (*Handler).writeEncrypted
